@@ -529,6 +529,9 @@ func (fx *fexec) execInstr(in ssa.Instruction, st *State) {
 		if isIgnoredCall(&x.Call) {
 			return
 		}
+		if mc, ok := x.Call.Value.(*ssa.MakeClosure); ok && closureIsNoop(mc.Fn.(*ssa.Function)) {
+			return // e.g. defer func() { a.mtx.Unlock(); b.mtx.Unlock() }()
+		}
 		panic(engErr("defer of " + x.Call.String() + " is outside the subset"))
 	case *ssa.RunDefers:
 		return
@@ -728,7 +731,7 @@ func (vc *VC) binopVal(fx *fexec, st *State, op token.Token, a, b Val, rt types.
 		return Val{Ty: rt, T: t}
 	}
 	if ii, ok := vc.intInfo(ot); ok {
-		if vc.bv {
+		if vc.bvType(ot) {
 			return vc.bvBinop(fx, st, op, a, b, rt, ii, pos, name)
 		}
 		return vc.intBinop(fx, st, op, a, b, rt, ii, pos, name)
@@ -889,13 +892,18 @@ func (fx *fexec) unop(x *ssa.UnOp, st *State) Val {
 		t := vc.define(x.Name(), vc.load(st, l))
 		res := Val{Ty: rt, T: t}
 		vc.assert(vc.typeInv(t, rt, st.alloc))
+		if h, ok := st.heap[l.Comp]; (!ok || h.S == l.Comp+"!0") && vc.hasRefs(rt) {
+			// the entry heap is closed: an object that existed at entry only refers to
+			// objects that existed at entry
+			vc.assert(implies(lt(l.Ref, vc.alloc0), vc.typeInv(t, rt, vc.alloc0)))
+		}
 		return res
 	case token.SUB:
 		ii, ok := vc.intInfo(rt)
 		if !ok {
 			panic(engErr("negation of non-integer"))
 		}
-		if vc.bv {
+		if vc.bvType(rt) {
 			return Val{Ty: rt, T: vc.define(x.Name(), app(v.T.Sort, "bvneg", v.T))}
 		}
 		e := sub(intLit(0), v.T)
@@ -910,7 +918,7 @@ func (fx *fexec) unop(x *ssa.UnOp, st *State) Val {
 		if !ok {
 			panic(engErr("complement of non-integer"))
 		}
-		if vc.bv {
+		if vc.bvType(rt) {
 			return Val{Ty: rt, T: vc.define(x.Name(), app(v.T.Sort, "bvnot", v.T))}
 		}
 		if ii.signed {
@@ -932,7 +940,22 @@ func (vc *VC) convertVal(st *State, v Val, rt types.Type, name string) Val {
 	from, fok := vc.intInfo(v.Ty)
 	to, tok := vc.intInfo(rt)
 	if fok && tok {
-		if vc.bv {
+		fbv, tbv := isBV(v.T.Sort), vc.bvType(rt)
+		switch {
+		case fbv && !tbv:
+			// bit-vector to mathematical integer (then wrapped into the target type)
+			x := vc.toInt(v)
+			if from.lo().Cmp(to.lo()) >= 0 && from.hi().Cmp(to.hi()) <= 0 {
+				return Val{Ty: rt, T: vc.define(name, x)}
+			}
+			return Val{Ty: rt, T: vc.define(name, wrapInt(x, to.w, to.signed))}
+		case !fbv && tbv:
+			if c, ok := constOf(v.T); ok {
+				return Val{Ty: rt, T: bvLit(c, to.w)}
+			}
+			return Val{Ty: rt, T: vc.define(name, Term{fmt.Sprintf("((_ int2bv %d) %s)", to.w, v.T.S), bvSort(to.w)})}
+		}
+		if fbv && tbv {
 			switch {
 			case from.w == to.w:
 				return Val{Ty: rt, T: v.T}
